@@ -347,18 +347,24 @@ def extra_short_series(ctx, rec):
 def extra_missing_markers(ctx, rec):
     """C02: the three documented missing markers -- None, NaN and masked elements (also mixed within one masked array)"""
     g = gen_qc.Gen(ctx.seed + 67, size=ctx.pick(8, 14))
-    carriers = ["list_none", "ma_nan", "ma_junk", "ma_mixed", "tuple_nan"]
+    carriers = ["list_none", "ma_nan", "ma_junk", "ma_mixed", "tuple_nan", "ma_i64far"]
     for fn in [f for f in ALL_FNS if f != "press"]:
-        for rep in range(ctx.pick(10, 60)):
+        for rep in range(ctx.pick(12, 60)):
             c = g.base(fn)
             if fn == "valid" and c["p"]["kind"] == "time":
                 continue
             xc = carriers[rep % len(carriers)]
+            if xc == "ma_i64far" and fn not in ("loc", "speed") and c["x"]:
+                # an integer masked array whose masked slots hide values far outside every span / threshold
+                if all(v != gen_qc.NA for v in c["x"]):
+                    c["x"][g.r.randrange(len(c["x"]))] = gen_qc.NA
             if xc == "ma_mixed" and fn not in ("loc", "speed") and len(c["x"]) >= 2:
                 # at least two missing values, so that both kinds (masked, plain NaN) occur in the one array
                 for i in g.r.sample(range(len(c["x"])), 2):
                     c["x"][i] = gen_qc.NA
             conc = dict(CONCS[rep % 2], xc=xc, ac=carriers[(rep + 2) % len(carriers)])
+            if xc == "ma_i64far":
+                conc = dict(CONCS[0], xc=xc, ac=carriers[(rep + 2) % 5])      # whole units, so that the array stays integer
             if fn == "valid" and xc in ("list_none", "tuple_nan"):
                 conc["dtype"] = "float64"
             rec.session([({"kind": "base", "i": 0, "k": 0}, c)], conc)
